@@ -169,7 +169,7 @@ func document(c *reg.Ctx, kind, doc string, w int) {
 		hw, _ := html(fw.out)
 		c.Emit(reg.Case{Coq: App("KReflow", Str(normaliseParagraphs(h)), Str(normaliseParagraphs(hw))),
 			Desc: desc{Kind: "reflow-preserve", Input: doc, Width: w, A: normaliseParagraphs(h), B: normaliseParagraphs(hw), Note: fw.out},
-			Key: fmt.Sprintf("R%d|%s", w, doc), Class: kind, Nontrivial: nt})
+			Key:  fmt.Sprintf("R%d|%s", w, doc), Class: kind, Nontrivial: nt})
 	}
 	var bk blockKinds
 	md.Render(doc, &bk)
@@ -313,6 +313,125 @@ func runKernels(c *reg.Ctx, n int) {
 	}
 }
 
+// ---- reflow at the exact-width boundary ----
+
+// words that need (or may need) an escape at the start of an output line
+var startWords = []string{"-", "+", "*", "#", ">", "1.", "1)", "=", "~~~", "`", "``", "--", "---", "##", "- -", "2.", "10)", "_"}
+
+// reflowLines runs the real reflow on plain words (hook) and returns the
+// emitted lines with the first line that is too wide although breakable.
+func reflowLines(words []string, w int) (lines []string, wide string) {
+	out := md.VerifC36Reflow(words, w)
+	for _, l := range strings.Split(out, "\n") {
+		lines = append(lines, l)
+		if len(l) > w && strings.Contains(l, " ") && wide == "" {
+			wide = l
+		}
+	}
+	return lines, wide
+}
+
+// boundaryParagraph plants a paragraph in which a start word begins a non-first
+// line and the next word makes that line exactly w-1, w or w+1 columns wide.
+func boundaryParagraph(c *reg.Ctx, w int) []string {
+	sw := startWords[c.Rand.Intn(len(startWords))]
+	fill := func(n int) string {
+		if n < 1 {
+			n = 1
+		}
+		return strings.Repeat("a", n)
+	}
+	var ws []string
+	ws = append(ws, fill(w)) // a full first line forces the break
+	for k, m := 0, 1+c.Rand.Intn(3); k < m; k++ {
+		ws = append(ws, strings.Fields(sw)...)
+		ws = append(ws, fill(w-len(sw)-1+c.Rand.Intn(3)-1))
+		if c.Rand.Intn(2) == 0 {
+			ws = append(ws, fill(1+c.Rand.Intn(3)))
+		}
+		sw = startWords[c.Rand.Intn(len(startWords))]
+	}
+	return ws
+}
+
+func runReflowBoundary(c *reg.Ctx, n int) {
+	// 1. exhaustive small sweep through the real reflow: 2-3 words (4 in the thorough
+	//    tier) of lengths 1-4 over {a,-,+,#}, widths 2-8; all emitted lines of one
+	//    width are judged in one case (the oracle is per line)
+	var vocab []string
+	for _, ch := range []string{"a", "-", "+", "#"} {
+		for l := 1; l <= 4; l++ {
+			vocab = append(vocab, strings.Repeat(ch, l))
+		}
+	}
+	maxWords := 3
+	if c.Tier == "thorough" {
+		maxWords = 4
+	}
+	for w := 2; w <= 8; w++ {
+		seen := map[string]bool{}
+		var all []string
+		hint, count := "", 0
+		var rec func(ws []string)
+		rec = func(ws []string) {
+			if len(ws) >= 2 {
+				count++
+				lines, wide := reflowLines(ws, w)
+				if wide != "" && hint == "" {
+					hint = fmt.Sprintf("words %q give line %q", ws, wide)
+				}
+				for _, l := range lines {
+					if !seen[l] {
+						seen[l] = true
+						all = append(all, l)
+					}
+				}
+			}
+			if len(ws) == maxWords {
+				return
+			}
+			for _, v := range vocab {
+				rec(append(append([]string{}, ws...), v))
+			}
+		}
+		rec(nil)
+		c.Count("kernel/reflow-sweep")
+		c.Emit(reg.Case{Coq: App("KReflowObs", Nat(w), strList(all)),
+			Desc: desc{Kind: "reflow-sweep", Input: fmt.Sprintf("all sequences of 2-%d words of lengths 1-4 over {a,-,+,#}: %d paragraphs, %d distinct lines", maxWords, count, len(all)), Width: w, Note: hint},
+			Key:  fmt.Sprintf("sweep%d", w), Class: "kernel-reflow-sweep", Nontrivial: true})
+	}
+	// 2. planted boundary paragraphs: kernel hook (words the text escaper leaves alone)
+	//    and the whole formatter
+	for i := 0; i < n; i++ {
+		w := 3 + c.Rand.Intn(10)
+		if c.Rand.Intn(4) == 0 {
+			w = 13 + c.Rand.Intn(70)
+		}
+		ws := boundaryParagraph(c, w)
+		plain := true
+		for _, x := range ws {
+			if strings.ContainsAny(x, "*`_") {
+				plain = false
+			}
+		}
+		if plain {
+			lines, wide := reflowLines(ws, w)
+			c.Count("kernel/reflow-boundary")
+			c.Emit(reg.Case{Coq: App("KReflowObs", Nat(w), strList(lines)),
+				Desc: desc{Kind: "reflow-boundary", Input: strings.Join(ws, " "), Width: w, A: strings.Join(lines, "\n"), Note: wide},
+				Key:  fmt.Sprintf("rb%d|%s", w, strings.Join(ws, " ")), Class: "kernel-reflow-boundary", Nontrivial: true})
+		}
+		doc := strings.Join(ws, " ") + "\n"
+		switch c.Rand.Intn(4) {
+		case 0:
+			doc = "> " + doc
+		case 1:
+			doc = "- x\n\n  " + doc
+		}
+		document(c, "reflow-boundary", doc, w)
+	}
+}
+
 func run(c *reg.Ctx) {
 	g := &mdgen.Gen{R: c.Rand, NoEmphasisNesting: true}
 	widths := []int{20, 51, 80}
@@ -334,10 +453,16 @@ func run(c *reg.Ctx) {
 		document(c, "spec", doc, widths[i%3])
 	}
 	// 2. fixed regression documents for the mutation classes
-	for _, doc := range []string{"\\# a\n", "\\- a\n", "1\\. a\n", "a\n\\# b\n", "```\n````\n```\n`````\n", "~~~ ~`\n~~~\n",
+	for _, doc := range []string{"aaaaa - foo\n", "aaaaa + foo\n", "\\# a\n", "\\- a\n", "1\\. a\n", "a\n\\# b\n", "```\n````\n```\n`````\n", "~~~ ~`\n~~~\n",
 		"[a](<b c> \"t\\\"'()\")\n", "`` ` `` and `a b` and some more words to be wrapped here\n", "`a  b` xxxxxxxxx yyyyyyyy `c  d` zzzzzzz `e   f`\n", "\\+ a\n", "\\> a\n", "a \\*b\\* \\_c\\_\n",
 		"\\[a\\](b)\n", "&amp;amp; \\&amp;\n", "\\<b>\n", "- - x\n", "* a\n\n  ***\n", "# a \\#\n", "    code\n", "- a\n\n      code\n"} {
 		document(c, "fixed", doc, 20)
+	}
+	for _, wd := range []struct {
+		doc string
+		w   int
+	}{{"aaaaa - foo\n", 5}, {"aaaaa + foo\n", 5}, {"aaaaaaa -- foo\n", 6}, {"aaaa # b\n", 3}, {"aaaaaa 1. bb\n", 5}, {"aaaaaa - - foo\n", 7}} {
+		document(c, "fixed", wd.doc, wd.w)
 	}
 	// 3. kernels
 	nk := c.N / 8
@@ -345,6 +470,7 @@ func run(c *reg.Ctx) {
 		nk = 40
 	}
 	runKernels(c, nk)
+	runReflowBoundary(c, c.N/6)
 	// 4. generated documents and mutations
 	spec := specMarkdown()
 	for i := 0; i < c.N/5; i++ {
